@@ -100,15 +100,19 @@ func (u *upstream) Serve() {
 		defer wg.Done()
 		u.hkc.Run(u.quit)
 	}()
-	wg.Wait()
+	<-u.quit
 
-	// stop all clients
+	// Stop all clients first. This fails the requests which are still
+	// waiting for an answer, including the one of the slots refresh loop,
+	// a backend which does not answer must not keep us from stopping.
 	u.clientsMu.Lock()
 	clients := u.loadClients()
 	for _, c := range clients {
 		c.Stop()
 	}
 	u.clientsMu.Unlock()
+
+	wg.Wait()
 	close(u.done)
 }
 
